@@ -174,19 +174,6 @@ harness!(tm_from_iter_extend, 6, {
     assert!(e.contains(x) == (had || x == ids[0] || x == ids[1]));
 });
 
-// @harness props=C21 tier=thorough timeout=1200 desc="union_all of two maps is their union"
-harness!(tm_union_all, 6, {
-    roaring::verif_set_universe();
-    let a = RowIdTreeMap::verif_any(1, 1);
-    let b = RowIdTreeMap::verif_any(1, 1);
-    let x: u64 = vnd::any();
-    let (ia, ib) = (a.contains(x), b.contains(x));
-    let u = RowIdTreeMap::union_all(&[&a, &b]);
-    vnd::cover!(ia != ib, "member of exactly one");
-    assert!(u.contains(x) == (ia || ib));
-    core::mem::forget(u);
-});
-
 // @harness props=C21 tier=thorough timeout=1200 desc="row_ids(): None iff a full marker, otherwise yields exactly the members in ascending order (<=3 members)"
 harness!(tm_row_ids, 8, {
     roaring::verif_set_universe();
